@@ -77,6 +77,32 @@ theorem greedy_bad_length (a b c d e f : UInt8) (rest : Bytes)
       rw [greedyStep_eq, hpl, if_pos hbig]; rfl
     exact greedy_stop hh hs
 
+/-- the length the `InvalidAVPLength` error of an unusable record carries: the whole field when it is below the
+    6-octet header, the payload part of it when the payload does not fit -/
+def badLen (a b : UInt8) : UInt16 :=
+  if hdrLen a b < 6 then UInt16.ofNat (hdrLen a b) else UInt16.ofNat (hdrLen a b - 6)
+
+/-- `greedy_bad_length` with the carried value spelled out -/
+theorem greedy_bad_length_eq (a b c d e f : UInt8) (rest : Bytes)
+    (h : hdrLen a b < 6 ∨ hdrLen a b - 6 > rest.length) :
+    (greedy : M Bytes DErr (List Res)) (a :: b :: c :: d :: e :: f :: rest) =
+      .ok [.error (.invalidAVPLength (badLen a b))] rest := by
+  have hlt := hdrLen_lt a b
+  unfold badLen
+  by_cases h6 : hdrLen a b < 6
+  · rw [if_pos h6, greedy_eq_aux _ ((a :: b :: c :: d :: e :: f :: rest).length + 1) (by omega), greedyAux_succ,
+      readHeader_cons, if_pos h6]
+  · rw [if_neg h6]
+    have hbig : hdrLen a b - 6 > rest.length := by rcases h with h | h; exact absurd h h6; exact h
+    have hh : (readHeader : M Bytes DErr _) (a :: b :: c :: d :: e :: f :: rest) =
+        .ok (some (.ok (hdrOf a b c d e f))) rest := by
+      rw [readHeader_cons, if_neg h6]; rfl
+    have hpl : (hdrOf a b c d e f).payloadLength.toNat = hdrLen a b - 6 := u16_small (by omega)
+    have hs : (greedyStep (hdrOf a b c d e f) : M Bytes DErr _) rest =
+        .ok (.error (.invalidAVPLength (UInt16.ofNat (hdrLen a b - 6))), false) rest := by
+      rw [greedyStep_eq, hpl, if_pos hbig]; rfl
+    exact greedy_stop hh hs
+
 /-! ### a control message assembled from a body -/
 
 /-- what `ControlMessage::try_read` does once the body's result list is known -/
